@@ -41,11 +41,21 @@ namespace OP2Utility::Stream
 
 	void MemoryWriter::SeekForward(uint64_t offset)
 	{
-		Seek(this->offset + offset);
+		// Note: this->offset + offset may wrap around to a position inside the buffer
+		if (offset > streamSize - this->offset) {
+			throw std::runtime_error("Change in offset places write position outside bounds of buffer.");
+		}
+
+		this->offset += static_cast<std::size_t>(offset);
 	}
 
 	void MemoryWriter::SeekBackward(uint64_t offset)
 	{
-		Seek(this->offset - offset);
+		// Note: this->offset - offset may wrap around to a position inside the buffer
+		if (offset > this->offset) {
+			throw std::runtime_error("Change in offset places write position outside bounds of buffer.");
+		}
+
+		this->offset -= static_cast<std::size_t>(offset);
 	}
 }
